@@ -87,7 +87,7 @@ m = {
   {"name": "shape", "path": "specs/shape + harness/shapefam", "serves_properties": ["C16"], "kind_free_text": "TLA+ universe of wrong-shaped documents; crash-isolating API driver"},
   {"name": "race", "path": "harness/racefam (+ specs/exec programs)", "serves_properties": ["C18"], "kind_free_text": "-race build of the harness running the Exec family's programs and schedules"},
  ],
- "checks": [], "not_applicable": [], "notes": "Every check: bash /verif/run.sh <id> <quick|thorough>; replay: bash /verif/run.sh <id> --replay <file>. Specification growth beyond the listed properties (not tied to a property id): bash /verif/run.sh grow (cases specifications against the CLI: Locate.tla which Taskfile is used, Special.tla special variables and task directory, Echo.tla what Task prints about a command, ExitCodes.tla exit status by kind of outcome); specs/slots/Slots.tla (inductive invariant of the slot discipline, discharged by Apalache inside the C07 check). Binding demonstration: bash /verif/run.sh selftest (a genuine trace / history is accepted, corrupted ones are flagged by the monitor and rejected by the model). Vacuity: bash /verif/run.sh coverage (every action of Exec.tla is taken in the design model). Seeded changes: tools/seedpar.sh (92 kept under seeded/, all detected)."
+ "checks": [], "not_applicable": [], "notes": "Every check: bash /verif/run.sh <id> <quick|thorough>; replay: bash /verif/run.sh <id> --replay <file>. Specification growth beyond the listed properties (not tied to a property id): bash /verif/run.sh grow (cases specifications against the CLI: Locate.tla which Taskfile is used, Special.tla special variables and task directory, Echo.tla what Task prints about a command, ExitCodes.tla exit status by kind of outcome); specs/slots/Slots.tla (inductive invariant of the slot discipline, discharged by Apalache inside the C07 check). Binding demonstration: bash /verif/run.sh selftest (a genuine trace / history is accepted, corrupted ones are flagged by the monitor and rejected by the model). Vacuity: bash /verif/run.sh coverage (every action of Exec.tla is taken in the design model). Seeded changes: tools/seedpar.sh (102 kept under seeded/, all detected)."
 }
 for pid in ALL:
     if pid in checks:
